@@ -112,6 +112,12 @@ class ScopeContext:
                     exc_tb=exc_tb,
                 )
 
+        except CancelledError as exc:
+            if exc_val is None:  # cancelled while disposing - spawned tasks have to be cancelled as well
+                exc_type, exc_val, exc_tb = type(exc), exc, exc.__traceback__
+
+            raise
+
         finally:  # leave the rest of the scope even if disposing fails or is cancelled
             try:
                 await self._task_group_context.__aexit__(
